@@ -43,6 +43,9 @@ class SimFS:
         # file (quota / file-size limit / NFS short write); buffered writers retry short
         # writes themselves, which is what `chunker` models
         self.short_writer: Callable[[Any, int], int] | None = None
+        # io_fault(task, op) -> errno | None : an I/O error reported by that system call
+        # (fsync: the data was already handed to the file; write: nothing was written)
+        self.io_fault: Callable[[Any, str], int | None] | None = None
         self._ino = 0
         self._mod = 0
         self._fd = 100
@@ -144,6 +147,11 @@ class SimFS:
 
     def fsync(self, fd: int) -> None:
         self._seam("fsync")
+        if self.io_fault is not None:
+            en = self.io_fault(self.sim.cur, "fsync")
+            if en:
+                self.sim.count("fs.io_error@fsync")
+                raise OSError(en, _os.strerror(en))
 
     # -- open()
     def open(self, path: str, mode: str, buffering: int = -1) -> "SimFile":
